@@ -25,8 +25,8 @@ Oracle  :
                           registration - scope-start event - the listener saw) must, within WINDOW
                           undisturbed ticks, give Error + Paused with that line in failed_line_ids
                                                                      no-error-pause:<kind> / failed-line-missing:<kind>
-                          undisturbed = no request of any kind between those ticks, every tick begins Running, no other
-                          line failed first; disturbed windows are counted, not judged
+                          undisturbed = no request of any kind between those ticks, no block end, every tick begins Running,
+                          no other line failed first; disturbed windows are counted, not judged
   (K2) all failing lines  the same lines, judged independently of other failures: once reported started, after 1 (instruction raises in
                           its own visit) resp. 2 (Watch/Alarm condition, from its scope-start) further ticks in which the engine runs the interpreter - ticks
                           spent Paused/Holding are waited through, so this covers several lines failing in ONE tick (interrupt bodies
@@ -37,7 +37,7 @@ Oracle  :
                           HOLD ticks later (a run that resumes by itself was not paused)   error-pause-not-held
   (R) responsiveness      bounded response after the campaign:
         stop   user Stop is accepted unless Stopped/Restarting, and System State is Stopped within 4 + (number of command
-               requests pending at that moment) ticks
+               requests pending at that moment) ticks, not counting ticks in which a command error is signalled (at most 8)
                                                                      unresponsive:stop-rejected / unresponsive:stop
         fix    the run sits in Error + Paused: the method is replaced by a corrected one (failed lines replaced by
                benign ones, not yet touched statements dropped, trailing 'Mark: tail' appended), Unpause, and the
@@ -69,8 +69,9 @@ TECHNIQUE = ("Hypothesis-generated campaigns (3 P-code dialects x injected snipp
              "Engine with a virtual clock; totality + history invariants + text-recognised known-bad expectations + bounded-response epilogues; "
              "thorough tier adds coverage-guided atheris fuzzing of the same strategy through hypothesis fuzz_one_input")
 RULE = ("a case = method lines (well-formed tree rendered to text, with inserted known-bad / broken / hostile lines), a schedule of "
-        "3-10 phases (0-2 requests: user command, inject, edit, input change, cancel/force; then 1-7 ticks), a drain and an epilogue "
-        "(stop | fix | none). Non-trivial = at least one method error was signalled during a tick (a malformed or failing line was "
+        "3-10 phases (0-2 requests: user command, inject, edit, input change, cancel/force; then 1-7 ticks), a drain, in a quarter of "
+        "the cases with bad lines a second act (Stop + Start, Stop + set_method + Start, or Restart, then 12-30 ticks: a later run of the "
+        "same engine) and an epilogue (stop | fix | none). Non-trivial = at least one method error was signalled during a tick (a malformed or failing line was "
         "reached). Distinct = distinct case JSON.")
 ASSUMPTIONS = [
     "UOD callbacks stay in their declared domains: the raising command Boom and non-numeric arguments of Slow/OvA/OvB/Set are not generated",
@@ -148,14 +149,21 @@ def _epilogue_stop(c: D.Campaign, viol, info):
     if not c.user("Stop"):
         viol("unresponsive:stop-rejected", "user Stop rejected in state %s" % before)
         return
-    for _ in range(bound):
-        if c.tick().raised is not None:
+    # ... requests the interpreter still schedules before Stop's first phase are inserted ahead of it as well: a tick in which a
+    # command error is signalled does not count towards the bound (at most 8 such ticks: a request failing in every tick starves Stop)
+    quiet = total = 0
+    while quiet < bound and total < bound + 8:
+        rec = c.tick()
+        if rec.raised is not None:
             return
         if h.state == "Stopped":
             info["stop:ok"] = 1
             return
-    viol("unresponsive:stop:%s" % _orphan(c), "user Stop accepted in state %s but System State is %s (Method Status %s) %d ticks later"
-         % (before, h.state, h.tagv("Method Status"), bound))
+        total += 1
+        if not any(e[1] == "method_error" for e in rec.events):
+            quiet += 1
+    viol("unresponsive:stop:%s" % _orphan(c), "user Stop accepted in state %s but System State is %s (Method Status %s) %d ticks later "
+         "(%d of them without a command error)" % (before, h.state, h.tagv("Method Status"), total, quiet))
 
 
 def _corrected(lines, touched: set, failed: set):
@@ -409,7 +417,8 @@ def judge(case, c: D.Campaign, viol, info):
             epoch, reached, open_exp = r.epoch, set(), []
             pend.clear()
         new_bad: list = []
-        if r.gap and open_exp:
+        if (r.gap or any(e[1] == "block_end" for e in r.events)) and open_exp:
+            # a request between the ticks, or a block that ended (its interrupts are removed before they evaluate their condition)
             info["window-disturbed"] = info.get("window-disturbed", 0) + len(open_exp)
             open_exp = []
         if not r.merged and r.ms_exc is None:
